@@ -41,17 +41,44 @@ type verifKLMPut struct {
 	loc Location
 }
 
+type verifKLMGet struct {
+	key  Key
+	kind int // 0 found, 1 not found, 2 error
+	loc  Location
+}
+
 type verifKLM struct {
+	lock    *sync.RWMutex // when set, lock discipline is checked (engine only)
 	gets    int
 	puts    []verifKLMPut
 	lookups []Key
+	history []verifKLMGet
 	// fixed: when true every lookup of a key returns the same answer (a quiescent index)
 	fixed     bool
 	fixedKind map[Key]int
 	fixedLoc  map[Key]Location
 }
 
+// verifRequireLock: the documented locking contract of the index and the location map
+// (reads under at least the read lock, mutations under the write lock). Only checkable
+// under the engine (MutexState is -1 natively).
+func verifRequireLock(lock *sync.RWMutex, write bool, what string) {
+	if lock == nil {
+		return
+	}
+	st := vnd.MutexState(lock)
+	if st < 0 {
+		return
+	}
+	if write {
+		vnd.Assert(st == 2, what+" called without holding the write lock")
+	} else {
+		vnd.Assert(st >= 1, what+" called without holding the lock")
+	}
+}
+
 func (m *verifKLM) Get(key Key) (Location, error) {
+	verifRequireLock(m.lock, false, "KeyLocationMap.Get")
 	m.gets++
 	m.lookups = append(m.lookups, key)
 	kind := 0
@@ -73,14 +100,18 @@ func (m *verifKLM) Get(key Key) (Location, error) {
 	}
 	switch kind {
 	case 0:
+		m.history = append(m.history, verifKLMGet{key: key, kind: 0, loc: loc})
 		return loc, nil
 	case 1:
+		m.history = append(m.history, verifKLMGet{key: key, kind: 1})
 		return Location{}, status.Error(codes.NotFound, "verif: object not found")
 	}
+	m.history = append(m.history, verifKLMGet{key: key, kind: 2})
 	return Location{}, verifErrIndex
 }
 
 func (m *verifKLM) Put(key Key, loc Location) error {
+	verifRequireLock(m.lock, true, "KeyLocationMap.Put")
 	m.puts = append(m.puts, verifKLMPut{key: key, loc: loc})
 	if vnd.Bool() {
 		return verifErrIndex
@@ -136,7 +167,9 @@ type verifLBMPut struct {
 }
 
 type verifLBM struct {
-	kind      int // kind of buffer handed out by getters: 0 CAS reader, 1 validated ReaderAt, 2 byte slice
+	lock      *sync.RWMutex // when set, lock discipline is checked (engine only)
+	epoch     int           // bumped by Put and by finalizers: both invalidate outstanding getters
+	kind      int           // kind of buffer handed out by getters: 0 CAS reader, 1 validated ReaderAt, 2 byte slice
 	sources   []*verifSource
 	integrity []bool
 	gets      int
@@ -147,12 +180,17 @@ type verifLBM struct {
 }
 
 func (m *verifLBM) Get(loc Location) (LocationBlobGetter, bool) {
+	verifRequireLock(m.lock, false, "LocationBlobMap.Get")
 	m.gets++
 	needsRefresh := vnd.Bool()
 	if m.quiescent {
 		needsRefresh = loc.BlockIndex < m.oldLimit
 	}
+	epoch := m.epoch
 	return func(d digest.Digest) buffer.Buffer {
+		// documented contract: Put() and finalizers invalidate outstanding getters
+		vnd.Assert(m.epoch == epoch, "a LocationBlobGetter was invoked after LocationBlobMap.Put or a put finalizer invalidated it")
+		verifRequireLock(m.lock, false, "LocationBlobGetter")
 		src := &verifSource{data: verifObjData}
 		m.sources = append(m.sources, src)
 		switch m.kind {
@@ -167,6 +205,8 @@ func (m *verifLBM) Get(loc Location) (LocationBlobGetter, bool) {
 }
 
 func (m *verifLBM) Put(sizeBytes int64) (LocationBlobPutWriter, error) {
+	verifRequireLock(m.lock, true, "LocationBlobMap.Put")
+	m.epoch++
 	if vnd.Bool() {
 		return nil, verifErrAlloc
 	}
@@ -183,6 +223,8 @@ func (m *verifLBM) Put(sizeBytes int64) (LocationBlobPutWriter, error) {
 		}
 		p.copyErr = err
 		return func() (Location, error) {
+			verifRequireLock(m.lock, true, "LocationBlobPutFinalizer")
+			m.epoch++
 			p.finalRun++
 			if p.copyErr != nil {
 				return Location{}, p.copyErr
@@ -206,6 +248,7 @@ type verifFlat struct {
 
 func verifNewFlat() *verifFlat {
 	f := &verifFlat{klm: &verifKLM{}, lbm: &verifLBM{kind: vnd.Choose(3)}, lock: &sync.RWMutex{}}
+	f.klm.lock, f.lbm.lock = f.lock, f.lock
 	f.ba = NewFlatBlobAccess(f.klm, f.lbm, digest.KeyWithoutInstance, f.lock, "verif", nil).(*flatBlobAccess)
 	return f
 }
@@ -409,6 +452,7 @@ type verifHier struct {
 
 func verifNewHier() *verifHier {
 	h := &verifHier{klm: &verifKLM{}, lbm: &verifLBM{kind: vnd.Choose(3)}, lock: &sync.RWMutex{}}
+	h.klm.lock, h.lbm.lock = h.lock, h.lock
 	h.ba = NewHierarchicalCASBlobAccess(h.klm, h.lbm, h.lock, nil).(*hierarchicalCASBlobAccess)
 	return h
 }
@@ -428,6 +472,51 @@ func verifHierIndexWrites(h *verifHier, d digest.Digest) {
 			}
 		}
 		vnd.Assert(okKey, "index entry written under a key outside the digest's own instance-name chain")
+		// Every location written is one a successful finalizer returned, or - for lookup
+		// entries only - the location the index itself returned for the canonical key at its
+		// LAST lookup (the entry as re-read under the lock, not a stale earlier copy).
+		fromFinalizer := false
+		for _, p := range h.lbm.puts {
+			if p.finalOK && p.loc == w.loc {
+				fromFinalizer = true
+			}
+		}
+		if !fromFinalizer {
+			vnd.Assert(w.key != canonical, "canonical entry written with a location no successful finalizer returned")
+			lastCanonical := -1
+			for i, g := range h.klm.history {
+				if g.key == canonical && g.kind == 0 {
+					lastCanonical = i
+				}
+			}
+			vnd.Assert(lastCanonical >= 0 && h.klm.history[lastCanonical].loc == w.loc, "a lookup entry was written with a location other than the canonical entry's location as last read under the lock")
+		}
+	}
+}
+
+// verifHierRefreshKeys: a read or existence check only ever (re)writes the canonical
+// key and the ONE lookup key that answered the request - never a less or more
+// specific name of the chain (which would widen or move visibility).
+func verifHierRefreshKeys(h *verifHier, d digest.Digest) {
+	canonical := getCanonicalKey(d)
+	lookups := getAllLookupKeys(d)
+	// the lookup key that answered: the key of the last successful lookup among the chain's lookup keys
+	answered := -1
+	for i, g := range h.klm.history {
+		if g.kind != 0 {
+			continue
+		}
+		for _, k := range lookups {
+			if g.key == k {
+				answered = i
+			}
+		}
+	}
+	for _, w := range h.klm.puts {
+		if w.key == canonical {
+			continue
+		}
+		vnd.Assert(answered >= 0 && w.key == h.klm.history[answered].key, "a refresh wrote a lookup entry under a name other than the one that answered the request")
 	}
 }
 
@@ -439,6 +528,7 @@ func verifScenarioHierGet() {
 	data, err := verifConsume(b, how)
 	verifAllClosedOnce(h.lbm)
 	verifHierIndexWrites(h, verifHierDigest)
+	verifHierRefreshKeys(h, verifHierDigest)
 	if err == nil {
 		vnd.Cover("get-ok")
 		vnd.Assert(string(data) == string(verifObjData), "Get completed with bytes other than the object's")
@@ -515,6 +605,7 @@ func verifScenarioHierFindMissing() {
 		vnd.Assert(p.consumed && p.finalRun == 1, "allocated space whose writer/finalizer did not run exactly once")
 	}
 	verifHierIndexWrites(h, verifHierDigest)
+	verifHierRefreshKeys(h, verifHierDigest)
 	if err == nil {
 		vnd.Cover("findmissing-ok")
 		vnd.Assert(missing.Length() <= 1, "more digests reported missing than were asked about")
@@ -557,6 +648,7 @@ func verifScenarioFlatTouch(findMissing bool) {
 	klm := &verifKLM{fixed: true}
 	lbm := &verifLBM{kind: vnd.Choose(3), quiescent: true, oldLimit: vnd.Choose(4)}
 	lock := &sync.RWMutex{}
+	klm.lock, lbm.lock = lock, lock
 	ba := NewFlatBlobAccess(verifQuiescentKLM{klm}, lbm, digest.KeyWithoutInstance, lock, "verif", nil).(*flatBlobAccess)
 	ctx := context.Background()
 	key := ba.getKey(verifObjDigest)
@@ -595,6 +687,7 @@ func verifScenarioHierTouch(findMissing bool) {
 	klm := &verifKLM{fixed: true}
 	lbm := &verifLBM{kind: vnd.Choose(3), quiescent: true, oldLimit: vnd.Choose(4)}
 	lock := &sync.RWMutex{}
+	klm.lock, lbm.lock = lock, lock
 	ba := NewHierarchicalCASBlobAccess(verifQuiescentKLM{klm}, lbm, lock, nil).(*hierarchicalCASBlobAccess)
 	ctx := context.Background()
 	touch := func() bool {
